@@ -87,6 +87,7 @@ func (ex *Exec) heap(st *State, name, sort string) Term {
 	if !ex.cx.declared[init] {
 		ex.cx.declConst(init, sort)
 		ex.typeHeap(name, Term{init, sort})
+		ex.initialHeapRefsOld(Term{init, sort})
 	}
 	return Term{init, sort}
 }
@@ -106,6 +107,27 @@ func (ex *Exec) typeHeap(name string, h Term) {
 	}
 	lo, hi := typeRange(t)
 	ex.cx.assume(Term{fmt.Sprintf("(forall ((r!t Ref)) (! (and (<= %s (select %s r!t)) (<= (select %s r!t) %s)) :pattern ((select %s r!t))))", bigLit(lo).S, h.S, h.S, bigLit(hi).S, h.S), SBool})
+}
+
+// initialHeapRefsOld: every reference stored in the initial heap designates an
+// object allocated before the function was entered.
+func (ex *Exec) initialHeapRefsOld(h Term) {
+	es := elemSortOf(h.Sort)
+	cell := Term{"(select " + h.S + " r!o)", es}
+	var ref Term
+	switch es {
+	case SRef:
+		ref = cell
+	case SSlice:
+		ref = app(SRef, "sarr", cell)
+	case SIface:
+		ref = app(SRef, "ival", cell)
+	default:
+		return
+	}
+	ex.cx.declConst("allocptr!0", SInt)
+	ap0 := Term{"allocptr!0", SInt}
+	ex.cx.assume(Term{fmt.Sprintf("(forall ((r!o Ref)) (! %s :pattern (%s)))", ex.refOld(ref, ap0).S, cell.S), SBool})
 }
 
 func (ex *Exec) freshHeap(prefix, name, sort string) Term {
